@@ -49,9 +49,16 @@ Targets and file_dep are written in several spellings (absolute, relative to the
 `<dir>//x`, `<dir>/./x`); selections / default_tasks name a target by the declared string (producer + closure expected) or by
 another spelling of the same file (exit 3, nothing runs); a file_dep spelled differently from the declared target is no
 implicit dependency.  A failure on such an input is reported under the shape `target-spelling`.
+
+Part C (harness/c12_cli.py, round F, seeded C12f): the command line in front of the selection -- degenerate names (the empty
+string, blanks, real names changed by case / leading / trailing characters, the word `run` out of place) at every position,
+`name=value` variables anywhere, explicit `run` / default command, --single, default_tasks holding such names.  C1: stubbed
+runner == enc_cmd (doit_main ..) (Model/Select.v Section Cli) + an oracle from the task list and the command line alone;
+C2: complete runs in-process through check_b; C3: the same through `python -m doit` in a sub-process.
 """
 import fnmatch, io, os, re, sys
 import common
+import c12_cli
 from common import Outcome
 
 PRE = 'From DoitV Require Import Base Select.\nOpen Scope N_scope.\n'
@@ -1094,24 +1101,30 @@ def directed_b(d):
     ]
 
 
-def check_b(ctx, out, spec, sel, single, ci, label=None, auto=False):
+def check_b(ctx, out, spec, sel, single, ci, label=None, auto=False, cli=None):
+    """cli (Part C, harness/c12_cli.py): dict(argv=<the complete command line as typed>, shape=<shape id of every violation of
+    this case>, runner=<function like run_b>, kind=<counter prefix>); then `sel` / `single` are what the documented reading of
+    that command line gives (variables removed, the word `run` and the options of `doit run` stripped)"""
     d = spec['dir']
     order, defs, dsubs = spec['order'], spec['defs'], spec['dsubs']
     argv = ['run'] + (['--single'] if single else []) + (['--auto-delayed-regex'] if auto else []) + sel
+    if cli:
+        argv = list(cli['argv'])
     eff = sel if sel else spec['default']
     exp = oracle_b(spec, eff, single, auto)
-    res = run_b(ctx, spec, argv, ci)
+    res = (cli['runner'] if cli and cli.get('runner') else run_b)(ctx, spec, argv, ci)
     esc = repr(re.escape(d))[1:-1]      # the directory as it appears inside a rendered target_regex
     short = lambda s: s.replace(esc, '<dir>').replace(d, '<dir>')
     case = dict(dodo=short(res['src']), argv=[short(a) for a in argv],
                 default_tasks=None if spec['default'] is None else [short(a) for a in spec['default']])
     status = [nm for ev, nm in res['log'] if ev == 'status']
     processed = set(nm for nm in status if not nm.startswith('_regex_target'))
-    out.count('B:%s%s%s' % ('exit3' if exp['rc'] == 3 else 'run', ':single' if single else '', ':delayed' if dsubs else ''))
+    part = cli['kind'] if cli else 'B'
+    out.count('%s:%s%s%s' % (part, 'exit3' if exp['rc'] == 3 else 'run', ':single' if single else '', ':delayed' if dsubs else ''))
     if label:
-        out.count('B:directed')
+        out.count(part + ':directed')
     if not sel:
-        out.count('B:no-positional:' + ('default_tasks' if spec['default'] is not None else 'all'))
+        out.count(part + ':no-positional:' + ('default_tasks' if spec['default'] is not None else 'all'))
     out.evaluations += 1
     ishape = input_shape(spec, eff, single)
     declared = [g for t in list(defs.values()) + list(dsubs.values()) for g in t['targets']]
@@ -1124,6 +1137,10 @@ def check_b(ctx, out, spec, sel, single, ci, label=None, auto=False):
 
     def viol(what, shape, force=False):
         shape = shape if force else (ishape or shape)
+        if cli:
+            shape = cli['shape']
+            what = '`doit %s`%s: %s' % (' '.join(repr(short(a)) for a in argv),
+                                       '' if sel else ' (default_tasks %s)' % case['default_tasks'], what)
         out.violations.append(dict(what=what, shape=shape, case=dict(case, observed=dict(rc=res['rc'], started=status, executed=res['executed'],
                                                                                           stderr=short(res['stderr'])))))
     # input shape of the defect repaired by 01f48fb: a sub-task of the delayed creator by name + an element the creator's
@@ -1139,7 +1156,9 @@ def check_b(ctx, out, spec, sel, single, ci, label=None, auto=False):
         if res['traceback']:
             return viol('`doit %s`: an exception other than InvalidCommand escaped (traceback) after a sub-task placeholder was '
                         'matched by the target regexes' % ' '.join(short(a) for a in argv), 'subtask-placeholder-regex-traceback', force=True)
-    if res['traceback']:
+    # Part C: an unknown name must end in exit code 3 with nothing processed; which message is printed (a traceback through
+    # the generic handler of DoitMain.run included) is not part of the property
+    if res['traceback'] and not (cli and exp['rc'] == 3 and res['rc'] == 3):
         return viol('doit run crashed with a traceback during selection/run', 'run-crash')
     # selection by target is by the declared string: such an element is never the rejected one; another spelling of a
     # declared target (that nothing else accounts for) is
@@ -1156,7 +1175,7 @@ def check_b(ctx, out, spec, sel, single, ci, label=None, auto=False):
                     % (cmdline, short(exp['unknown']), [short(g) for g in declared if same_file_b(d, exp['unknown'], g)], res['rc'], status),
                     'target-spelling', force=True)
     if exp['rc'] == 3:
-        out.nontrivial.add(('B3', ci))
+        out.nontrivial.add((part + '3', ci))
         if exp.get('late'):
             if res['rc'] != 3 or (exp['may_run'] is not None and not (processed <= exp['may_run'])):
                 viol('target %r that the delayed creator is asked for but never creates: exit code %s (expected 3), started %s, '
@@ -1173,7 +1192,7 @@ def check_b(ctx, out, spec, sel, single, ci, label=None, auto=False):
         return
     want = exp['processed']
     if len(want) >= 3:
-        out.nontrivial.add(('B', ci, tuple(sorted(want)), tuple(status)))
+        out.nontrivial.add((part, ci, tuple(sorted(want)), tuple(status)))
     if res['rc'] != 0:
         return viol('selection is valid but doit run exited with %s' % res['rc'], 'valid-selection-rejected')
     if processed != want:
@@ -1261,10 +1280,13 @@ def run(ctx):
     out.rule = ('A: random task lists (plain, groups+sub-tasks, delayed creators, wild-card task_dep, implicit deps via targets, load errors) x '
                 'random selections (names, globs, targets, unknown, delayed sub-task/regex) x default_tasks x --single x --auto-delayed-regex; '
                 'non-trivial = >= 3 tasks and a non-empty selection or default, distinct by observed outcome.  '
-                'B: generated dodo modules run for real; non-trivial = closure of >= 3 tasks, or a rejected selection')
+                'B: generated dodo modules run for real; non-trivial = closure of >= 3 tasks, or a rejected selection.  ' + c12_cli.RULE)
     cases = part_a(ctx, out)
+    me = sys.modules[__name__]
+    cases += c12_cli.part_c1(ctx, out, me)
     out.evaluations += len(cases)
     part_b(ctx, out)
+    c12_cli.part_c23(ctx, out, me)
     bad = common.compare_with_model(ctx, PRE, cases)
     out.traces_validated = len(cases)
     for i, m in bad:
@@ -1275,15 +1297,21 @@ def run(ctx):
                        'per-task arguments: which tokens are consumed (pos_arg, option tokens in exact spelling -c / --word, str values) is '
                        'modelled; the parsed VALUES, option clusters, --opt=value, "--" and "-" are not',
                        'C12_serial_order / C12_nothing_outside_closure_serial are proved over the dispatcher + serial runner model with a STATIC task table (Model/Dispatch.v, Runner.v; tied to the code by the correspondence checks of C01/C02/C09); on real runs (delayed creators included) the start order of the selected tasks and the closure are checked by the oracle of Part B',
-                       'the run after a delayed creator executed (tasks replaced by the created ones) is covered by Part B only, not by the model']
+                       'the run after a delayed creator executed (tasks replaced by the created ones) is covered by Part B only, not by the model',
+                       'command line front (Model/Select.v Section Cli, Part C1): `name=value` test, == "run" and the spelling of the options of `doit run` '
+                       'are oracles tabulated by the harness; domain: the only sub-command word is `run`, option-position tokens are -s / --single / '
+                       '--auto-delayed-regex or unknown options, no "--", "-", --version, --help, no loader options (Part C3 passes -f through the real parser)']
     out.extra['trusted_base'] = ['rendering of real Task attributes into Model/Select.v tables and of exceptions into the error enum (harness/c12.py)',
-                                 'the closure oracle of Part B (harness/c12.py oracle_b)']
+                                 'the closure oracle of Part B (harness/c12.py oracle_b)',
+                                 'the documented reading of a command line and the selection oracle of Part C (harness/c12_cli.py cli_reading, oracle_c1)']
     return out
 
 
 def replay(ctx, payload):
     """re-run the dodo module and command line of a recorded Part B violation on the code under test"""
     case = payload.get('case', {})
+    if case.get('part') == 'C1':
+        return c12_cli.replay_c1(ctx, payload, sys.modules[__name__])
     if case.get('part') == 'A' and 'tasks' in case:
         info = {}
         obs = run_a1(dict(case, sel_none=case.get('sel_none', False)), Intern(), info)
